@@ -18,7 +18,10 @@ LEVEL_TEXT = ("theorems (index outside/inside, strict monotonicity, inverse both
               "entries, uniform ice, layer dispatch partition) proved over R for every parameter set with k,a>0; the same model text run on Float "
               "agrees with pyrex.ice_model on every sampled input")
 LEVEL_NOTE = ("floating-point rounding is not modelled (tolerance run); depth_with_index is compared only where "
-              "the index is distinguishable from n0 (|n0-n| >= 1e-9)")
+              "the index is distinguishable from n0 (|n0-n| >= 1e-9); attenuation positivity is proved for every depth and "
+              "frequency for the Antarctic and Greenland models and for the AraSim table down to -3171 m "
+              "(C16_atten_arasim_pos, C16_atten_arasim_pos_extended); below -3172 m the AraSim length is NEGATIVE in model "
+              "and code alike (C16_atten_arasim_negative_far_below_range) - known finding K20, not a _partial theorem")
 
 
 def ices(run):
@@ -375,6 +378,31 @@ def _atten_forms(ice, z, f):
             "matrix": float(np.asarray(ice.attenuation_length(np.array([z, z / 2]), np.array([f, 2 * f])))[0, 0])}
 
 
+def arasim_zero_depth(ice):
+    """depth at which the linear extrapolation of the AraSim table (its last segment) crosses zero"""
+    d0, d1 = ice.atten_depths[-2:]
+    l0, l1 = ice.atten_lengths[-2:]
+    return -(d1 + l1 * (d1 - d0) / (l0 - l1))
+
+
+def in_k20(name, ice, z, vals):
+    """K20: ArasimIce below the zero crossing of its extrapolated table (about -3171.35 m, 321 m below the valid range):
+    every call form returns the same non-positive, finite number"""
+    return (name == "arasim" and z <= arasim_zero_depth(ice) and z < ice.valid_range[0]
+            and all(np.isfinite(v) and v <= 0 for v in vals.values())
+            and all(fw.close(v, vals["scalar"], 1e-12) for v in vals.values()))
+
+
+def known_probes(run):
+    """K20: ArasimIce attenuation length is negative far below the valid range (C16_atten_arasim_negative_far_below_range)"""
+    from pyrex.ice_model import ArasimIce
+    ice = ArasimIce()
+    vals = _atten_forms(ice, -3200.0, 3e8)
+    run.case(("known", "K20"), sample={"arasim_atten_at_-3200m": vals["scalar"], "zero_crossing": arasim_zero_depth(ice)})
+    if in_k20("arasim", ice, -3200.0, vals):
+        run.known_finding("K20")
+
+
 def search_atten(run):
     for name, ice in shipped():
         lo, hi = ice.valid_range
@@ -386,15 +414,19 @@ def search_atten(run):
         for i, j in bad[:3]:
             run.fail_input("atten-positive", {"ice": name, "z": float(zs[i]), "f": float(fs[j])}, observed=float(m[i, j]),
                            what="attenuation length not positive and finite")
-        # every call form, over the whole frequency range (incl. far above the models' fitted band)
-        for rep in range(run.scale(30, 300)):
-            z = float(run.rng.choice([lo, hi, run.rng.uniform(lo, hi)]))
+        # every call form, over the whole frequency range (incl. far above the models' fitted band) and from above
+        # the surface to far below the range
+        for rep in range(run.scale(40, 400)):
+            z = float(run.rng.choice([lo, hi, run.rng.uniform(lo, hi), run.rng.uniform(lo, hi),
+                                      run.rng.uniform(hi, hi + 300), run.rng.uniform(lo - 1500, lo)]))
+            run.count("atten_depth_" + ("inside" if lo <= z <= hi else "above" if z > hi else "below"))
             f = float(10 ** run.rng.uniform(6, 10.3))
             with np.errstate(all="ignore"):
                 vals = _atten_forms(ice, z, f)
             run.case((name, "atten-forms", z, f))
             if not all(np.isfinite(v) and v > 0 for v in vals.values()):
                 run.fail_input("atten-positive", {"ice": name, "z": z, "f": f}, observed=vals,
+                               finding_key="K20" if in_k20(name, ice, z, vals) else None,
                                what="attenuation length not positive and finite in some call form")
             elif not all(fw.close(v, vals["scalar"], 1e-12) for v in vals.values()):
                 run.fail_input("atten-forms", {"ice": name, "z": z, "f": f}, observed=vals,
@@ -450,7 +482,8 @@ def replay(run, data):
         with np.errstate(all="ignore"):
             vals = _atten_forms(ice, z, f)
         if not all(np.isfinite(v) and v > 0 for v in vals.values()):
-            run.fail_input("atten-positive", inp, observed=vals, what="attenuation length not positive and finite")
+            run.fail_input("atten-positive", inp, observed=vals, finding_key="K20" if in_k20(inp["ice"], ice, z, vals) else None,
+                           what="attenuation length not positive and finite")
         elif not all(fw.close(v, vals["scalar"], 1e-12) for v in vals.values()):
             run.fail_input("atten-forms", inp, observed=vals, what="attenuation_length forms disagree")
     else:
